@@ -258,6 +258,11 @@ var richForms = []richForm{
 	{"subq.exists", true, false, func(c *fw.Case, d *richDoc, vf string) string {
 		return "SELECT rid, s1 FROM t1 WHERE EXISTS (SELECT e FROM arr WHERE " + vf + "(e) > " + fmt.Sprint(c.Intn(5)) + gen.Pick(c.R, []string{"", " AND e >= n1"}) + ")"
 	}},
+	{"subq.exists.star", true, false, func(c *fw.Case, d *richDoc, vf string) string {
+		// the select list of an EXISTS subquery does not matter: *, a literal, a column
+		sel := gen.Pick(c.R, []string{"*", "*", "1", "e, f"})
+		return "SELECT rid FROM t1 WHERE " + gen.Pick(c.R, []string{"", "NOT "}) + "EXISTS (SELECT " + sel + " FROM arr WHERE " + vf + "(e) >= 0" + gen.Pick(c.R, []string{"", " AND e >= 0", " OR f = 'zz'"}) + ")"
+	}},
 	{"union.left", true, false, func(c *fw.Case, d *richDoc, vf string) string {
 		return "SELECT " + vf + "(n1) AS v FROM t1 " + gen.Pick(c.R, []string{"UNION", "UNION ALL"}) + " SELECT un1 AS v FROM u1"
 	}},
@@ -398,7 +403,17 @@ var typeErrorQueries = []struct{ name, sql string }{
 	{"subq.exists", "SELECT rid FROM t1 WHERE EXISTS (SELECT e FROM arr WHERE 'x' + 1 > 2)"},
 	{"union.left", "SELECT ('x' + 1) AS v FROM t1 UNION ALL SELECT un1 AS v FROM u1"},
 	{"union.right", "SELECT un1 AS v FROM u1 UNION ALL SELECT ('x' + 1) AS v FROM t1"},
+	{"subq.exists.star", "SELECT rid FROM t1 WHERE EXISTS (SELECT * FROM arr WHERE 'x' + 1 > 2)"},
+	{"subq.notexists.star", "SELECT rid FROM t1 WHERE NOT EXISTS (SELECT * FROM arr WHERE NOT 5)"},
 	{"raise", "SELECT rid, RAISE('always') FROM t1"},
+	// a guard whose condition is not a boolean is a type error, not a guard that does not fire
+	{"raise_when.cond-string", "SELECT rid, RAISE_WHEN('yes', 'x') FROM t1"},
+	{"raise_when.cond-number", "SELECT rid, RAISE_WHEN(n1, 'x') FROM t1"},
+	{"raise_when.cond-object", "SELECT rid, RAISE_WHEN(obj, 'x') FROM t1"},
+	{"report_when.cond-string", "SELECT rid, REPORT_WHEN('yes', 'x') FROM t1"},
+	{"raise_when.cond-string.derived", "SELECT q.rid FROM (SELECT rid, RAISE_WHEN(s1, 'x') FROM t1) q"},
+	{"raise_when.cond-number.cte", "WITH c1 AS (SELECT rid, RAISE_WHEN(1, 'x') FROM t1) SELECT * FROM c1"},
+	{"raise_when.cond-string.union", "SELECT rid FROM t1 UNION ALL SELECT rid, RAISE_WHEN('no', 'x') FROM t1"},
 	// "badrow.": the document gets one row whose `obj` is a string, so that a
 	// path through it raises a reader error on that row only
 	{"badrow.order", "SELECT rid, obj FROM t1 ORDER BY `obj.k`"},
